@@ -271,7 +271,11 @@ func TestWorker(t *testing.T) {
 			// bubble; recycle the process before they pile up
 			var ms runtime.MemStats
 			runtime.ReadMemStats(&ms)
-			if runtime.NumGoroutine() > 4000 || ms.HeapAlloc > 3<<30 {
+			// (the race detector's own memory is not in HeapAlloc and is never given back:
+			// under the orchestrator's address-space limit a race-mode process that lives
+			// for minutes dies with "ThreadSanitizer: out of memory"; such workers hand over
+			// to a fresh process every 45 s, or earlier when their address space nears 8 GiB)
+			if runtime.NumGoroutine() > 4000 || ms.HeapAlloc > 3<<30 || (raceMode && (time.Since(start) > 45*time.Second || vmSize() > 8<<30)) {
 				sum.Recycled = true
 				sum.NextIndex = i + 1
 				break
@@ -494,4 +498,15 @@ func TestOne(t *testing.T) {
 			fmt.Println("   ", x)
 		}
 	}
+}
+
+// vmSize: the process's virtual size in bytes (0 if /proc is not readable).
+func vmSize() int64 {
+	b, err := os.ReadFile("/proc/self/statm")
+	if err != nil {
+		return 0
+	}
+	var pages int64
+	fmt.Sscanf(string(b), "%d", &pages)
+	return pages * int64(os.Getpagesize())
 }
